@@ -433,6 +433,25 @@ func oracleC03(f *sessionFam, w *World) []Violation {
 			v("close-event-emitted", "never-closed-after-peer-gone/"+st, fmt.Sprintf("%s: every client has been gone for %v but the session is still %s and no close event was delivered", a, f.grace, st))
 		}
 	}
+	// Close returns: a call that is still on the stack when every client has long gone, and the run is over, is
+	// waiting for something that will never happen (a lock held by a writer that is stuck on a peer that has stopped
+	// reading, for instance)
+	if f.drained {
+		calls, rets := map[string]int{}, map[string]int{}
+		for _, e := range w.Evs {
+			switch e.Kind {
+			case "app-close":
+				calls[e.Sess]++
+			case "app-close-ret":
+				rets[e.Sess]++
+			}
+		}
+		for _, a := range sortedKeys(calls) {
+			if calls[a] > rets[a] {
+				v("close-call-returns", "", fmt.Sprintf("%s: %d Close calls, %d returned by the end of the run", a, calls[a], rets[a]))
+			}
+		}
+	}
 	// cause attribution: the reason must be one the environment made possible
 	for _, a := range sortedKeys(ss) {
 		s := ss[a]
